@@ -26,6 +26,7 @@ import Martian.LexerLR
 import Martian.LexerLRCheck
 import Martian.LexerLRGen
 import Proofs.LexerLR
+import Martian.LexerLRSem
 import Martian.Tokenizer
 import Proofs.Tokenizer
 import Gen.Facts
@@ -404,11 +405,19 @@ theorem float32_unchecked_panics :
     float32Float [0x31, 0x65, 0x33, 0x39] = .error :=
   Martian.LexerActions.float32_unchecked_panics
 
-/-- Recorded (not a totality defect; the action accepts and mis-stores):
-`MapDim: 1 + $4` in `type_id` has no guard, 32767 inner array dimensions of a
-map type wrap it to −32768. -/
-theorem map_dim_wraps : mapDim 32767 = -32768 ∧ (∀ n : Int, 0 ≤ n → n < 32767 → mapDim n = n + 1) :=
-  mapDim_wraps
+/-- The map dimension of `type_id` (`1 +` the inner array dimension, an int16):
+since the repair 96a192c it is exact and below 2^15 for every count the
+`arr_list` counter can deliver, or a located error. -/
+theorem map_dim_total (n : Int) (h0 : 0 ≤ n) (h1 : n ≤ 32767) :
+    (mapDim n = .ok (n + 1) ∧ n + 1 < 2 ^ 15) ∨ (mapDim n = .error ∧ n = 32767) :=
+  mapDim_total n h0 h1
+
+/-- Negative witness about the UNGUARDED action (the code before the repair;
+the harness replays it and checks that the real code no longer behaves so):
+32767 inner array dimensions of a map type wrapped the dimension to −32768. -/
+theorem map_dim_wraps : mapDimUnguarded 32767 = -32768 ∧
+    (∀ n : Int, 0 ≤ n → n < 32767 → mapDimUnguarded n = n + 1) :=
+  mapDimUnguarded_wraps
 
 end actions
 
@@ -528,6 +537,15 @@ theorem front_end_total (fail : Nat → Bool) (src : Martian.Lexer.Bytes) :
   have := lr_driver_total fail (tokenIds src)
   simpa [parseSource, tokenIds] using this
 
+/-- Regenerated obligation for the semantic values of the value-expression
+sub-grammar (`parseLR`, Martian/LexerLRSem.lean; used by Props/C09Tie.lean):
+every modelled action is found, by its text, among the actions of grammar.go
+now, and no two productions with different modelled actions share a text.  A
+changed action body is no longer recognised and breaks this. -/
+theorem lr_value_actions_recognised :
+    (semTable.all fun p => Gen.mmProdBody.any fun q => q.2 == p.1) = true ∧
+    (semTable.all fun p => semTable.all fun q => p.1 != q.1 || p.2 == q.2) = true := by decide +kernel
+
 end lr
 
 /-- The regenerated facts these theorems are stated against were really found
@@ -544,7 +562,8 @@ theorem facts_extracted :
     Gen.mmTok2_extracted = true ∧ Gen.mmTok3_extracted = true ∧ Gen.mmLast_extracted = true ∧
     Gen.mmPrivate_extracted = true ∧ Gen.mmFlag_extracted = true ∧ Gen.mmErrCode_extracted = true ∧
     Gen.mmEofCode_extracted = true ∧ Gen.mmNToknames_extracted = true ∧ Gen.mmNErrorMessages_extracted = true ∧
-    Gen.mmFailProds_extracted = true ∧ Gen.mmPred_extracted = true ∧ Gen.mmRank_extracted = true := by decide
+    Gen.mmFailProds_extracted = true ∧ Gen.mmPred_extracted = true ∧ Gen.mmRank_extracted = true ∧
+    Gen.mmProdBody_extracted = true := by decide
 
 /-! ### definitional unfoldings (documentation of the model, not guarantees) -/
 
